@@ -268,25 +268,25 @@ Proof.
   nra.
 Qed.
 
-Lemma lin_cmp S rhs : 0 <= S -> Rleb 0 rhs && Rleb (S * S + 0 * 0) (rhs * rhs) = Rleb S rhs.
+Lemma lin_cmp S rhs : Rleb 0 rhs && Rleb (S * S + 0 * 0) (rhs * rhs) = Rleb (Rabs S) rhs.
 Proof.
-  intros Hs.
-  destruct (Rleb S rhs) eqn:E1; [apply Rleb_spec in E1 | apply Rleb_false in E1].
+  assert (Hsq : Rabs S * Rabs S = S * S) by (destruct (Rabs_spec S) as [[_ E]|[_ E]]; rewrite E; ring).
+  pose proof (Rabs_pos S) as Hp.
+  destruct (Rleb (Rabs S) rhs) eqn:E1; [apply Rleb_spec in E1 | apply Rleb_false in E1].
   - apply andb_true_iff; split; apply Rleb_spec; nra.
   - apply andb_false_iff. destruct (Rle_dec 0 rhs).
     + right. apply Rleb_false. nra.
     + left. apply Rleb_false. lra.
 Qed.
 
-(* linear mode: the network side takes |sum|, the algorithm side compares the signed sum;
-   they coincide when the sums are non-negative, in particular for non-negative schedules *)
-Lemma alg_net_agree_linear_nonneg (n : network RF) inf X T ovt ort :
+(* linear mode: both sides compare |sum_i |A_ji| X_it| with the limit (since fix 1df0c97 the
+   algorithm side takes the magnitude as the network side does), on every schedule *)
+Lemma alg_net_agree_linear (n : network RF) inf X T ovt ort :
   infrastructure_info RF n = Ok inf ->
-  all_nonneg RF X = true ->
   alg_is_feasible RF inf X T true (opt_or RF ovt (n_vt n)) (opt_or RF ort (n_rt n))
   = net_is_feasible RF n X T true ovt ort.
 Proof.
-  intros Hinf Hnn. destruct (info_ok_fields n inf Hinf) as (EA & EL & EC & _ & Hlen & _).
+  intros Hinf. destruct (info_ok_fields n inf Hinf) as (EA & EL & EC & _ & Hlen & _).
   unfold alg_is_feasible, alg_is_feasible_tol, net_is_feasible. rewrite EA, EL, EC.
   set (vt := opt_or RF ovt (n_vt n)). set (rt := opt_or RF ort (n_rt n)).
   assert (G : forallb (fun p => alg_row_ok RF (n_cis n) X T true (fst p) (snd p) (g_utils_tol RF (snd p) vt rt))
@@ -298,7 +298,7 @@ Proof.
     apply forallb_eq_in. intros t _.
     rewrite net_rhs_eq, utils_tol_eq. cbn [g_utils_ok_linear RF fabs].
     unfold Feas_R.Utils_ok_linear, mag_le. cbn [fst snd fleb f0 fadd fmul RF].
-    apply lin_cmp. now apply dot_abs_nonneg. }
+    apply lin_cmp. }
   rewrite G. destruct (n_limits n) eqn:E; auto.
 Qed.
 
@@ -479,6 +479,7 @@ Proof.
   set (u := wsum (fst p) X (map fst (i_cis inf)) t) in *.
   set (v := wsum (fst p) X (map snd (i_cis inf)) t) in *.
   clearbody S rhs u v.
+  assert (HS' : S <= rhs) by (rewrite Rabs_pos_eq in H by assumption; exact H).
   assert (S * S <= rhs * rhs) by nra.
   apply andb_true_iff; split; apply Rleb_spec; lra.
 Qed.
@@ -498,13 +499,14 @@ Lemma witness_tol_disagree :
   /\ alg_is_feasible_default QF inf witness_tol_X 1 false = true.
 Proof. eexists. repeat split; vm_compute; reflexivity. Qed.
 
-(* default tolerances, linear mode, x = -50 on "x <= 40" *)
+(* regression witness of the fixed finding 1df0c97: default tolerances, linear mode, x = -50 on
+   "x <= 40": all three reject *)
 Definition witness_neg_net : network QF :=
   Build_network QF (Some [[1]]) [40] [(1, 0)] (g_net_default_vt QF) (g_net_default_rt QF).
 
-Lemma witness_neg_disagree :
+Lemma witness_neg_agree :
   exists inf, infrastructure_info QF witness_neg_net = Ok inf
   /\ net_is_feasible QF witness_neg_net [[-50]] 1 true None None = false
   /\ iface_is_feasible QF witness_neg_net [(O, [-50])] true None None = Ok false
-  /\ alg_is_feasible_default QF inf [[-50]] 1 true = true.
+  /\ alg_is_feasible_default QF inf [[-50]] 1 true = false.
 Proof. eexists. repeat split; vm_compute; reflexivity. Qed.
